@@ -86,6 +86,20 @@ CONTRACTS = [
         inv="has_value == s.has and implies(s.has, same(value, s.val)) and at_end == s.at_end",
     ),
     OpContract(
+        name="timeout_with_mapper", props=["C17", "C09"], file=OPS + "_timeoutwithmapper.py", func="timeout_with_mapper_",
+        call="timeout_with_mapper_(first_timeout, mapper, other)(source)", params={"mapper": "callback:source"},
+        sources=("source", "other", "first_timeout"),
+        spec="specs.c17:timeout_with_mapper",
+        cells={"switched": "bool", "_id": "cell:int", "timer.current": "optdisp"},
+        inv="switched == s.switched and _id[0] == s.gen and s.gen >= 0 and timer.current is not None",
+        # after the end the counter and the flag still mirror the spec: a timeout left over from before is stale or finds the switch made
+        inv_done="switched == s.switched and _id[0] == s.gen", live="not s.term and not s.switched",
+        families={"timeout": dict(spec=("timeout_next", "timeout_error", "timeout_completed"), id="s.gen", once=True,
+                                  inv="my_id == k", inv_done="my_id == k",
+                                  # a timeout left over from before the source's terminal is stale
+                                  ghost_inv="1 <= k and k <= s.gen and implies(s.term, k < s.gen)")},
+    ),
+    OpContract(
         name="timeout/relative", props=["C17"], file=OPS + "_timeout.py", func="timeout_",
         call="timeout_(duetime, other, scheduler)(source)", params={"duetime": "nat", "absolute": "const:False"}, scheduler="scheduler",
         sources=("source", "other"),
